@@ -22,7 +22,7 @@ for i in range(0,len(a),2):
     ov["Replace"]["/repo/"+a[i]]=a[i+1]
 json.dump(ov,open(out,"w"))
 PY
-if [ -x "checks/$lc/prebuild.sh" ]; then VERIF_OVERLAY="$scratch/overlay.json" "checks/$lc/prebuild.sh" "$tier"; fi
+if [ -x "checks/$lc/prebuild.sh" ]; then VERIF_OVERLAY="$scratch/overlay.json" "checks/$lc/prebuild.sh" "$tier" || { echo "PREBUILD FAILED"; rm -rf "$scratch"; exit 2; }; fi
 go build -tags verif -overlay "$scratch/overlay.json" -o "$scratch/bin" "./checks/$lc" || { echo "MUTANT DOES NOT COMPILE"; rm -rf "$scratch"; exit 2; }
 VERIF_OUT="$scratch" VERIF_TIER="$tier" "$scratch/bin" -tier "$tier" > "$scratch/out" 2> "$scratch/err"
 rc=$?
